@@ -365,6 +365,9 @@ def r6_persist_errors(ctx, cfg):
 
 
 def run(ctx, cfg=CFG):
+    # E-bitfield (rules/bitfield.py): the fields of a packed word partition it (mask == 2^shift - 1)
+    from . import bitfield
+    bitfield.rule_bitfields(ctx, "C04.R10", ["cascette_client_storage"], floor=4)
     # E-drop (rules/dropped.py): no bool result of a function of these modules is thrown away by a caller anywhere in the workspace
     from . import dropped
     dropped.rule_dropped(ctx, "C04.R9", [k for k in ["cascette_formats", "cascette_client_storage", "cascette_cache", "cascette_protocol", "cascette_ribbit"] if k in (CRATES or [])] or CRATES, r"client-storage/src/(storage|container|installation)", floor=12)
@@ -381,6 +384,7 @@ def run(ctx, cfg=CFG):
     # ... and on two more shared mechanisms: every bucket is persisted by save_all (what the container's write relies on after an
     # update-log rollover), and the archive's allocate-write-advance sequence runs under exclusive access (round 6: C04-r6m1 / r6m2)
     c05.r8_persist_every_bucket(ctx, c05.CFG)
+    c05.r2_flush_retry(ctx, c05.CFG)      # a write is in the index when add_entry says Ok: no Ok without an append (round 7: C04-r7m2)
     from . import c11
     c11.r6_exclusive_alloc(ctx)
     r6_persist_errors(ctx, cfg)
@@ -392,4 +396,4 @@ def run(ctx, cfg=CFG):
 
 
 from .selftest import for_families as _ff  # noqa: E402
-selftest = _ff(['gate', 'slice', 'errflow', 'dirty', 'stale', 'drop'])
+selftest = _ff(['gate', 'slice', 'errflow', 'dirty', 'stale', 'drop', 'bitfield'])
